@@ -267,13 +267,23 @@ pub fn gen(r: &mut Rng) -> (Program, World) {
     p.parties = parties.iter().map(|x| x.0.clone()).collect();
     let mut w = World { mainnet, parties: parties.clone(), env_ints: vec![], env_bytes: vec![], int_args: vec![], bytes_args: vec![], addr_args: vec![], utxos: vec![] };
 
+    // a third of the declared names are written with capitals: the IR asks for them in lower case
+    let spelled = |r: &mut Rng, n: &str| -> String {
+        match r.below(6) {
+            0 => n.to_uppercase(),
+            1 => n[..1].to_uppercase() + &n[1..],
+            _ => n.to_string(),
+        }
+    };
     if r.chance(1, 2) {
-        p.env.push(("margin".into(), Ty::Int));
-        w.env_ints.push(("margin".into(), r.range(0, 5000) as i128));
+        let margin = spelled(r, "margin");
+        p.env.push((margin.clone(), Ty::Int));
+        w.env_ints.push((margin, r.range(0, 5000) as i128));
         if r.chance(1, 2) {
-            p.env.push(("tag".into(), Ty::Bytes));
+            let tag = spelled(r, "tag");
+            p.env.push((tag.clone(), Ty::Bytes));
             let n = 1 + r.below(6) as usize;
-            w.env_bytes.push(("tag".into(), r.bytes(n)));
+            w.env_bytes.push((tag, r.bytes(n)));
         }
     }
     let with_tok = r.chance(2, 3);
@@ -304,16 +314,18 @@ pub fn gen(r: &mut Rng) -> (Program, World) {
     }
     let mut int_params = pos_params.clone();
     if r.chance(1, 2) {
-        t.params.push(("delta".into(), Ty::Int));
-        w.int_args.push(("delta".into(), boundary_small(r)));
-        int_params.push("delta".into());
+        let delta = spelled(r, "delta");
+        t.params.push((delta.clone(), Ty::Int));
+        w.int_args.push((delta.clone(), boundary_small(r)));
+        int_params.push(delta);
     }
     let mut bytes_params = vec![];
     if r.chance(1, 2) {
-        t.params.push(("note".into(), Ty::Bytes));
+        let note = spelled(r, "note");
+        t.params.push((note.clone(), Ty::Bytes));
         let n = r.below(9) as usize;
-        w.bytes_args.push(("note".into(), r.bytes(n)));
-        bytes_params.push("note".to_string());
+        w.bytes_args.push((note.clone(), r.bytes(n)));
+        bytes_params.push(note);
     }
     let addr_param = r.chance(1, 3);
     if addr_param {
